@@ -100,7 +100,7 @@ def build_harness(race=False):
     if REPO != "/repo":
         sh("go mod edit -replace github.com/amzn/ion-go=%s" % REPO, cwd=HARNESS, env=GOENV)
     out_bin = VH + ("_race" if race else "")
-    cmd = "go build -tags verif %s %s -o %s ./cmd/vh" % ("-race" if race else "", COVER_FLAGS if cover_mode() else "", out_bin)
+    cmd = "go build -tags verif %s %s -o %s ./cmd/vh" % ("-race" if race else "", COVER_FLAGS if cover_mode() and not race else "", out_bin)
     env = dict(GOENV)
     if race:
         env["CGO_ENABLED"] = "1"
